@@ -214,6 +214,42 @@ theorem visitList_M (s : Schema) (hU : ArgsUnique s) (v : Inner σ) :
     simp only [visitList, refList, h1, h2]
 end
 
+/-! ## absent callbacks: `VisitWithTypeInfo` over `VisitorOptions` = the walk with the totalised visitor -/
+
+mutual
+theorem visitO_eq_visit (T : Tracker) (hT : T.leaveNeedsHandler = false) (o : Opts σ) :
+    ∀ (n : TNode) (ti : TI) (st : σ), visitO T o n ti st = visit T o.total n ti st
+  | .mk kind loc nv cs, ti, st => by
+    have ih := fun st1 => visitListO_eq_visitList T hT o cs (T.enter ti nv) st1
+    have hl : ∀ (ti2 : TI) (st2 : σ),
+        (match getLeaveFn o kind with
+          | some fn => (T.leave ti2 nv, fn st2 ⟨kind, loc, regs ti2⟩)
+          | none => (if T.leaveNeedsHandler then ti2 else T.leave ti2 nv, st2)) =
+        (T.leave ti2 nv, o.total.leave st2 ⟨kind, loc, regs ti2⟩) := by
+      intro ti2 st2
+      cases hg : getLeaveFn o kind <;> simp [Opts.total, hg, hT]
+    cases hg : getEnterFn o kind with
+    | none =>
+      have he : o.total.enter st ⟨kind, loc, regs (T.enter ti nv)⟩ = (st, false) := by simp [Opts.total, hg]
+      simp only [visitO, visit, hg, he, ih]
+      exact hl _ _
+    | some fn =>
+      have he : o.total.enter st ⟨kind, loc, regs (T.enter ti nv)⟩ = fn st ⟨kind, loc, regs (T.enter ti nv)⟩ := by
+        simp [Opts.total, hg]
+      simp only [visitO, visit, hg, he, ih]
+      rcases fn st ⟨kind, loc, regs (T.enter ti nv)⟩ with ⟨st1, b⟩
+      cases b with
+      | true => rfl
+      | false => exact hl _ _
+theorem visitListO_eq_visitList (T : Tracker) (hT : T.leaveNeedsHandler = false) (o : Opts σ) :
+    ∀ (ns : List TNode) (ti : TI) (st : σ), visitListO T o ns ti st = visitList T o.total ns ti st
+  | [], _, _ => by simp [visitListO, visitList]
+  | n :: ns, ti, st => by
+    simp only [visitListO, visitList, visitO_eq_visit T hT o n ti st]
+    rcases visit T o.total n ti st with ⟨ti1, st1⟩
+    exact visitListO_eq_visitList T hT o ns ti1 st1
+end
+
 /-! ## records -/
 
 mutual
